@@ -458,15 +458,55 @@ func FieldOf(v ssa.Value) (base ssa.Value, field string, ok bool) {
 		if st == nil {
 			return nil, "", false
 		}
-		return promotedBase(x.X), FieldName(st, x.Field), true
+		b, prefix := promotedBaseName(x.X)
+		return b, prefix + FieldName(st, x.Field), true
 	case *ssa.Field:
 		st, _ := x.X.Type().Underlying().(*types.Struct)
 		if st == nil {
 			return nil, "", false
 		}
-		return promotedBase(x.X), FieldName(st, x.Field), true
+		b, prefix := promotedBaseName(x.X)
+		return b, prefix + FieldName(st, x.Field), true
 	}
 	return nil, "", false
+}
+
+// promotedBaseName: like promotedBase, and additionally looks through NAMED
+// (not embedded) value fields of module struct types that merely group fields
+// of their owner (x.hdrs.sent): the field is reported as "hdrs.sent" of x.
+func promotedBaseName(b ssa.Value) (ssa.Value, string) {
+	prefix := ""
+	for i := 0; i < 4; i++ {
+		var inner ssa.Value
+		var st *types.Struct
+		var idx int
+		switch y := b.(type) {
+		case *ssa.FieldAddr:
+			st, inner, idx = derefStruct(y.X.Type()), y.X, y.Field
+		case *ssa.Field:
+			st, _ = y.X.Type().Underlying().(*types.Struct)
+			inner, idx = y.X, y.Field
+		default:
+			return b, prefix
+		}
+		if st == nil {
+			return b, prefix
+		}
+		f := st.Field(idx)
+		if _, isStruct := f.Type().Underlying().(*types.Struct); !isStruct || !moduleType(f.Type()) {
+			return b, prefix
+		}
+		if !f.Embedded() {
+			// only private grouping structs (unexported type, no methods)
+			n, _ := f.Type().(*types.Named)
+			if n == nil || n.Obj().Exported() || n.NumMethods() > 0 {
+				return b, prefix
+			}
+			prefix = FieldName(st, idx) + "." + prefix
+		}
+		b = inner
+	}
+	return b, prefix
 }
 
 // promotedBase: a field reached through EMBEDDED struct fields of the module
